@@ -24,6 +24,7 @@ import GormModel.Lemmas.HeapQuiet
 import GormModel.Lemmas.HeapSim
 import GormModel.Lemmas.ClauseMap
 import GormModel.Lemmas.ArgUse
+import GormModel.Lemmas.PreloadConds
 namespace Gorm
 open Gorm.Heap
 
@@ -688,5 +689,81 @@ example : (let a := mkArg [1] 0; let u := joinsUseBuilt siteSafe cfgSafe 16 a.1 
            laterChain a.1 a.2 = laterChain u.heap u.arg ∧ argChanged a.1 u.heap a.2 u.arg = []) := by decide +kernel
 example : (let a := mkArg [0] 1; let u := subqueryUse siteSafe cfgSafe 16 a.1 a.2
            laterChain a.1 a.2 = laterChain u.heap u.arg ∧ argChanged a.1 u.heap a.2 u.arg = [] ∧ u.toks.length > 2) := by decide +kernel
+
+/-! ## round 5 — what every *DB-returning method returns; alias writes of the callbacks; Preload arguments
+
+  Regenerated by extract/gen_c06z.go → Gen/C06Round5.lean: `dbReturns` (for every method of *DB with a *DB result and
+  every `return`: where the returned *DB comes from) and `aliasWrites` (every write-like event in callbacks/*.go,
+  finisher_api.go, association.go, scan.go, callbacks.go through a name that can denote storage the executing chain's
+  statement shares with the handle it was derived from). -/
+
+/-- Commit / Rollback / SavePoint / RollbackTo finish a transaction handle and hand it back: no chain is derived -/
+def txControl : List String := ["Commit", "Rollback", "SavePoint", "RollbackTo"]
+
+/-- the five ways of obtaining a reusable handle besides Open -/
+def derivations : List String := ["Session", "WithContext", "Debug", "Begin"]
+
+/-- NO exported method of *DB returns its receiver, on any `return`: what comes back is the `tx` of getInstance() /
+    Session() (or of another method called on it).  A shortcut `return db` — harmless when `db` is a handle — hands
+    back a chain in progress (clone 0) when called mid-chain: chains started from it would pile up on it. -/
+theorem C06_methods_never_return_receiver :
+    ∀ f ∈ Gen.dbReturns, f.2.1 = true → f.1 ∉ txControl → ∀ r ∈ f.2.2, ["recv"] ∉ r := by decide +kernel
+
+/-- Session / WithContext / Debug / Begin: on EVERY return path the result is the `&DB{…}` Session() allocates — the
+    literal itself or a call chain that passes through Session — never anything else -/
+theorem C06_derivations_through_session :
+    (∀ d ∈ derivations, ∃ f ∈ Gen.dbReturns, f.1 = d ∧ f.2.2 ≠ []) ∧
+    ∀ f ∈ Gen.dbReturns, f.1 ∈ derivations → ∀ r ∈ f.2.2, r ≠ [] ∧ ∀ p ∈ r, p = ["fresh"] ∨ ("Session" ∈ p ∧ p.head? = some "recv") := by
+  decide +kernel
+
+/-- getInstance() is the ONLY method that may return its receiver (clone 0: the chain goes on in place) or a fresh
+    `&DB{…}`; nothing else -/
+theorem C06_getInstance_returns :
+    ∀ f ∈ Gen.dbReturns, f.1 = "getInstance" → f.2.2 = [[["fresh"]], [["recv"]]] := by decide +kernel
+
+/-- every write-like event through shared statement storage in the callbacks / finishers is of one of the two kinds
+    that cannot change what a holder of the shared slice sees: replacing a FIELD of the executing chain's own
+    statement, or `append` onto the shared slice (writes only beyond its length; never an exposed slot when the slice
+    has no spare capacity — `appendS_full_writes`).  No element / field assignment, no append onto a re-sliced prefix,
+    no delete / copy / sort / clear. -/
+theorem C06_callbacks_alias_write_kinds :
+    ∀ e ∈ Gen.aliasWrites, e.2.2.1 = "storeField" ∨ e.2.2.1 = "appendOntoShared" := by decide +kernel
+
+/-- … and the analysis does see the Preload arguments inside preload() / preloadEntryPoint (non-vacuity) -/
+theorem C06_alias_analysis_reaches_preload :
+    (∃ e ∈ Gen.aliasWrites, e.2.1 = "preloadEntryPoint" ∧ e.2.2.2.1 = "preloads[name]") ∧
+    (∃ n ∈ Gen.aliasNames, n.take 2 = ["callbacks/preload.go", "preload"] ∧ "conds:0" ∈ n) := by decide +kernel
+
+open Gorm.PreConds in
+/-- consuming the arguments of `Preload(name, args…)` (preloadEntryPoint + preload) with a nil-initialised
+    `inlineConds`, in EVERY heap, for every argument slice without spare capacity and every list of
+    clause.Associations conditions: no exposed slot is written, so every slice that existed before — in particular the
+    handle's `Preloads[name]` — reads the same afterwards. -/
+theorem C06_preload_args_frozen (H : Heap) (args : Slice) (assoc : List Cell) (full : args.cap ≤ args.len)
+    (s : Slice) (v : s.validIn H) :
+    (consume false H args assoc).1.writes = H.writes ∧ readS (consume false H args assoc).1 s = readS H s :=
+  ⟨consume_fresh_writes H args assoc full,
+   readS_of_grows ((consume_ext false H args assoc).2 (consume_fresh_writes H args assoc full)) s v⟩
+
+open Gorm.PreConds in
+/-- with spare capacity behind the arguments the append of the Associations conditions may write there — and only there:
+    any write to an exposed slot is counted, for both disciplines -/
+theorem C06_preload_args_ext (p : Bool) (H : Heap) (args : Slice) (assoc : List Cell) : Ext H (consume p H args assoc).1 :=
+  consume_ext p H args assoc
+
+open Gorm.PreConds in
+/-- the shape of seed m13: `inlineConds = conds[:0]` filters IN PLACE — `Preload(rel, scopeFn, cond, arg)` on a handle
+    reads `[cond, arg, arg]` after ONE chain has run its preload: the scope function is lost for every later chain -/
+theorem C06_preload_args_inplace_counterexample :
+    argsAfter true [.atom 0, .atom 3, .atom 5] 0 [] = ([.atom 3, .atom 5, .atom 5], 2) ∧
+    argsAfter false [.atom 0, .atom 3, .atom 5] 0 [] = ([.atom 0, .atom 3, .atom 5], 0) := by decide +kernel
+
+open Gorm.PreConds in
+/-- WHAT HOLDS FOR THE CURRENT SOURCE TREE: preload() has no append onto a re-sliced prefix of shared storage, so it
+    consumes the arguments with the nil-initialised discipline -/
+theorem C06_preload_args_current_tree : prefixInitOf Gen.aliasWrites = false := by decide +kernel
+
+open Gorm.PreConds in
+example : (argsAfter false [.atom 0, .atom 3, .atom 0, .atom 7] 2 [.atom 9]).1 = [.atom 0, .atom 3, .atom 0, .atom 7] := by decide +kernel
 
 end Gorm
